@@ -283,6 +283,9 @@ package level
 //@ define hmok(s, secs) = isnil(s) || len(s) == hmsize(secs)
 //@ define hmeq(b, s, secs) = !isnil(b) && b.length == 256 && b.bits == bitslen(secs*16 + 1) && all(k, 0, len(b.data), b.data[k] == ite(isnil(s), 0, s[k]))
 
+// index of the level section that save section k is stored into
+//@ define secidx(c, k) = int(int32(c.Sections[k].Y) - c.YPos)
+
 //@ func readStatesPalette(palette, data) (paletteData, err)
 //@   trusted
 //@   mayalias palette, data
@@ -295,6 +298,7 @@ package level
 
 //@ func countNoneAirBlocks(sec) (blockCount)
 //@   trusted
+//@   ensures blockCount == nonair_count(base(sec.States))
 //@   modifies nothing
 
 //@ func writeStatesPalette(paletteData) (palette, data, err)
@@ -350,6 +354,9 @@ package level
 //@   requires len(c.Sections) < 1<<20
 //@   loop 0: modifies sections[:]
 //@   loop 0: invariant -1 <= rangeindex && rangeindex < len(c.Sections) || (rangeindex == -1 && len(c.Sections) == 0)
+//@   loop 0: invariant len(sections) == secs
+//@   loop 0: invariant all(k, 0, rangeindex+1, 0 <= secidx(c, k) && secidx(c, k) < secs)
+//@   loop 0: invariant all(k, 0, rangeindex+1, sections[secidx(c, k)].BlockCount == nonair_count(base(sections[secidx(c, k)].States)))
 //@   loop 1: modifies blockEntities[:]
 //@   loop 1: invariant -1 <= rangeindex && rangeindex < len(c.BlockEntities) || (rangeindex == -1 && len(c.BlockEntities) == 0)
 //@   panics only when !hmok(c.Heightmaps["WORLD_SURFACE_WG"], secs) || !hmok(c.Heightmaps["WORLD_SURFACE"], secs) || !hmok(c.Heightmaps["OCEAN_FLOOR_WG"], secs) || !hmok(c.Heightmaps["OCEAN_FLOOR"], secs) || !hmok(c.Heightmaps["MOTION_BLOCKING"], secs) || !hmok(c.Heightmaps["MOTION_BLOCKING_NO_LEAVES"], secs)
@@ -360,5 +367,6 @@ package level
 //@   ensures err == nil ==> hmeq(res.HeightMaps.OceanFloor, c.Heightmaps["OCEAN_FLOOR"], secs)                             [@value]
 //@   ensures err == nil ==> hmeq(res.HeightMaps.MotionBlocking, c.Heightmaps["MOTION_BLOCKING"], secs)                     [@value]
 //@   ensures err == nil ==> hmeq(res.HeightMaps.MotionBlockingNoLeaves, c.Heightmaps["MOTION_BLOCKING_NO_LEAVES"], secs)   [@value]
+//@   ensures err == nil ==> all(k, 0, secs, res.Sections[secidx(c, k)].BlockCount == nonair_count(base(res.Sections[secidx(c, k)].States)))   [@value]
 //@   ensures err == nil ==> bswf(res.HeightMaps.MotionBlocking)                                                     [@wf]
 //@   modifies nothing                                                                [@frame]
